@@ -87,4 +87,8 @@ theorem poisson_result_neumann
 /-- the reduced matrix is handed over in CSC format (what SuperLU expects) -/
 theorem poisson_format : Gen.PoissonSys.fmtA = "csc" := by decide
 
+
+/-! ### census of data-dependent decisions: the traced code took exactly the branches the model knows about -/
+theorem census_PoissonSys_pcCount : Gen.PoissonSys.pcCount = 0 := rfl
+
 end LapyVerif.Bridge
